@@ -278,6 +278,15 @@ class ConsumerClient(Client):
             {"op": "param_set", "p": pid, "value": round(r.uniform(0, 6), 3)},
             self.use_op(sid),
         ]
+        if r.random() < 0.5:
+            # a fine sweep: steps far below any plausible tolerance shortcut
+            v = round(r.uniform(0.5, 2.5), 3)
+            self.queue += [
+                {"op": "param_set", "p": pid, "value": v},
+                self.use_op(sid),
+                {"op": "param_set", "p": pid, "value": v + r.choice([1e-6, 3e-7, 1e-8])},
+                self.use_op(sid),
+            ]
         w.stats["intent:mzi_phase"] += 1
         return self.queued()
 
@@ -520,7 +529,7 @@ class SamplerUser(ConsumerClient):
             if not ids:
                 return self.new_detector()
             attr = r.choice(["efficiency", "p_dark", "photon_counting"])
-            v = {"efficiency": r.choice([1, 0.9, 0.6]),
+            v = {"efficiency": r.choice([1, 0.9, 0.6, 0]),
                  "p_dark": r.choice([0, 0, 0.05, 0.3]),
                  "photon_counting": r.random() < 0.5}[attr]
             return {"op": "det_set", "det": self.pick(ids), "attr": attr,
@@ -604,7 +613,7 @@ class SamplerUser(ConsumerClient):
     def new_detector(self):
         r = self.rng
         return {"op": "new_detector", "out": self.w.new_id("det"),
-                "eff": r.choice([1, 1, 0.9, 0.6]),
+                "eff": r.choice([1, 1, 0.9, 0.6, 0]),
                 "p_dark": r.choice([0, 0, 0.05, 0.3]),
                 "pnr": r.random() < 0.6}
 
